@@ -1,3 +1,57 @@
-From Ristretto Require Import Base.Word Simd.X86 Simd.SearchGo.
-Theorem C20_placeholder : first_ge [] 0 = 0%N.
-Proof. reflexivity. Qed.
+(* C20 — simd.Search agrees with the reference search.  Statements only.
+   search_prog / search_guarded are GENERATED from z/simd/search_amd64.s and the package's Go files on
+   every run (Gen/SearchAsm.v), so these theorems are re-checked against what the code says now. *)
+From Ristretto Require Import Base.Word Simd.X86 Simd.SearchGo Simd.SearchProofs Gen.SearchAsm Simd.KernelProofs.
+Open Scope N_scope.
+
+(* The translated assembly kernel: for every slice whose length is a non-zero multiple of 8 (below 2^16:
+   the result is an int16), every k, every content of the memory after the slice and every base address
+   at which the slice fits into the address space, it terminates with first_ge and every word it reads
+   lies inside the slice. *)
+Theorem C20_asm_kernel : forall base xs beyond k,
+  base + 8 * lenN xs <= two64 -> lenN xs < 2147483648 ->
+  lenN xs mod 8 = 0 -> 8 <= lenN xs -> lenN xs < 65536 ->
+  exists rd, run_kernel search_prog base xs beyond k = Some (Z.of_N (first_ge xs k), rd) /\
+             Forall (fun w => w < lenN xs) rd.
+Proof. exact kernel_correct. Qed.
+
+(* The portable reference implementations, for every length (odd lengths included). *)
+Theorem C20_naive : forall xs k, naive xs k = first_ge xs k.
+Proof. exact naive_first_ge. Qed.
+
+Theorem C20_portable : forall xs k, search_portable xs k = Some (first_ge xs k).
+Proof. exact search_portable_first_ge. Qed.
+
+(* The exported amd64 Search (as the translator found it: length-guarded Go wrapper around the kernel):
+   first_ge for EVERY length below 2^16, whatever follows the slice in memory. *)
+Theorem C20_search : forall base xs beyond k,
+  base + 8 * lenN xs <= two64 -> lenN xs < 65536 ->
+  search_amd64 search_guarded search_prog base xs beyond k = Some (Z.of_N (first_ge xs k)).
+Proof.
+  intros base xs beyond k Hb Hl. unfold search_amd64.
+  change search_guarded with true. cbn [andb].
+  destruct ((lenN xs <? 8) || negb (lenN xs mod 8 =? 0)) eqn:E.
+  - now rewrite naive_first_ge.
+  - apply orb_false_elim in E. destruct E as [E1 E2].
+    apply N.ltb_ge in E1. apply negb_false_iff, N.eqb_eq in E2.
+    destruct (kernel_correct base xs beyond k Hb ltac:(lia) E2 E1 Hl) as (rd & -> & _). reflexivity.
+Qed.
+
+Theorem C20_independent_of_memory_beyond : forall base xs b1 b2 k,
+  base + 8 * lenN xs <= two64 -> lenN xs < 65536 ->
+  search_amd64 search_guarded search_prog base xs b1 k = search_amd64 search_guarded search_prog base xs b2 k.
+Proof. intros. rewrite !C20_search by assumption. reflexivity. Qed.
+
+(* Regression witness: without the guard the kernel's answer on a 2-word slice depends on what follows it. *)
+Theorem C20_kernel_overread :
+  run_kernel search_prog 4096 [1; 0] [0; 0; 5; 0; 0; 0; 0; 0] 3 <> run_kernel search_prog 4096 [1; 0] [9; 0; 5; 0; 0; 0; 0; 0] 3.
+Proof. vm_compute. discriminate. Qed.
+
+Example C20_nonvacuous :
+  search_amd64 search_guarded search_prog 4096 [1; 0; 3; 0; 5; 0; 7; 0; 9; 0; 11; 0; 13; 0; 15; 0] [0; 0; 0; 0; 0; 0; 0; 0] 10
+  = Some 5%Z /\ first_ge [1; 0; 3; 0; 5; 0; 7; 0; 9; 0; 11; 0; 13; 0; 15; 0] 10 = 5.
+Proof. split; vm_compute; reflexivity. Qed.
+
+Print Assumptions C20_asm_kernel.
+Print Assumptions C20_search.
+Print Assumptions C20_portable.
